@@ -378,7 +378,7 @@ def rule_replay(ctx, fx, config):
                     own = {var for bb, i, adt, var, fl, ops, s_ in aggregates(f, f.reachable([tgt], avoid=obs_blocks + [x for v2, x in arms.items() if x != tgt])) if adt == "saphyr_parser_bw::Event"}
                     ctx.check(own <= {EV2EVENT[vn]}, "REPLAY", key + ":only", "arm builds only its own kind", "arm for Ev::%s builds %s" % (vn, sorted(own)), config, ctx.where(f, tgt))
                 else:
-                    ctx.check(not (set(obs_blocks) & region) or True, "REPLAY", key, "non-node variant %s handled" % vn, "", config, ctx.where(f, tgt))
+                    ctx.check(not (set(obs_blocks) & region), "REPLAY", key, "non-node variant %s is not re-observed (it never appears in a replay buffer)" % vn, "the non-node variant Ev::%s reaches the enforcer as if it were a replayed node" % vn, config, ctx.where(f, tgt))
     ctx.check(found, "REPLAY", "C07:REPLAY:switch", "kind switch found", "cannot find the match on the replayed event's kind", config, ctx.where(f))
     # a replayed scalar is re-observed with its taggedness: the enforcer counts an untagged plain `<<` key only
     oktag = False
